@@ -20,10 +20,12 @@ Proof. exact teardown_ends_with_sgr0. Qed.
 Print Assumptions C12_teardown_ends_with_sgr0.
 
 (* every history (settings in any order, repeated, redundant; pens; pause / resume cycles;
-   teardown; destruction; setupterm) passes the specification's checker, keypad left out *)
+   teardown; destruction; setupterm) passes the specification's checker, keypad left out.
+   No premise on the arguments: [hist_check] tests the ranges ([op_in_rangeb]) before the
+   model runs and ends the walk with [MOutOfRange] on an out-of-range control value or pen *)
 Theorem C12_history_nokp :
   forall colon rgb8 cshape ops t s,
-    start_ok colon rgb8 cshape t s -> Forall op_pen_ok ops ->
+    start_ok colon rgb8 cshape t s ->
     forall i w, hist_check false colon rgb8 cshape init_ms 0 t s ops <> MBadAt i w.
 Proof. exact history_nokp_c. Qed.
 Print Assumptions C12_history_nokp.
@@ -31,7 +33,7 @@ Print Assumptions C12_history_nokp.
 (* the same with the keypad compared, for histories that never switch it on *)
 Theorem C12_history_full_partial :
   forall colon rgb8 cshape ops t s,
-    start_ok colon rgb8 cshape t s -> Forall op_pen_ok ops -> sets_keypad_on ops = false ->
+    start_ok colon rgb8 cshape t s -> sets_keypad_on ops = false ->
     forall i w, hist_check true colon rgb8 cshape init_ms 0 t s ops <> MBadAt i w.
 Proof. exact history_full_partial_c. Qed.
 Print Assumptions C12_history_full_partial.
